@@ -1154,6 +1154,8 @@ struct Run {
     max_depth: usize,
     complete: bool,
     states_per_depth: Vec<u64>,
+    /// this run stops after this depth (quick tier: the reduced DefaultBindGroup = 0 / 2 runs)
+    depth_cap: usize,
 }
 
 /// locate global index `idx` in the concatenation of per-run work lists
@@ -1166,6 +1168,11 @@ fn bfs_all(ctx: &Ctx, rep: &mut Report, runs: &mut Vec<Run>, full_upto: usize, m
     // violations are ordered by a case index that grows with the depth, so the reported example is the shortest
     let mut index_base = index_start;
     for depth in 1..=max_depth {
+        for r in runs.iter_mut() {
+            if depth > r.depth_cap {
+                r.frontier.clear();
+            }
+        }
         if runs.iter().all(|r| r.frontier.is_empty()) {
             break;
         }
@@ -1508,10 +1515,9 @@ pub fn run(ctx: &Ctx) -> i32 {
     let mut runs: Vec<Run> = Vec::new();
     for cfg in ALL_CFGS {
         for dg in ALL_DGS {
-            // quick tier: no-pipeline mode and DefaultBindGroup = 1 (the thorough tier adds DefaultBindGroup = 0 and 2)
-            if ctx.quick() && matches!(dg, Dg::Pipe(0) | Dg::Pipe(2)) {
-                continue;
-            }
+            // quick tier: no-pipeline mode and DefaultBindGroup = 1 with the full alphabet; DefaultBindGroup = 0 and 2
+            // (an explicit zero is not the same input as no property) with the class alphabet at every depth
+            let reduced = ctx.quick() && matches!(dg, Dg::Pipe(0) | Dg::Pipe(2));
             let root = Key { hook: (Vec::new(), Vec::new()), model: Model::default() };
             let mut seen = HashMap::new();
             seen.insert(root, 1);
@@ -1519,7 +1525,7 @@ pub fn run(ctx: &Ctx) -> i32 {
                 cfg,
                 dg,
                 tag: format!("transitions|{}|{}", cfg.name(), dg.name()),
-                full: full.clone(),
+                full: if reduced { classes.clone() } else { full.clone() },
                 classes: classes.clone(),
                 seen,
                 frontier: vec![(vec![], vec![])],
@@ -1528,6 +1534,7 @@ pub fn run(ctx: &Ctx) -> i32 {
                 max_depth: 0,
                 complete: true,
                 states_per_depth: vec![1],
+                depth_cap: if reduced { 2 } else { usize::MAX },
             });
         }
     }
